@@ -39,11 +39,17 @@ pub fn catch<T, F: FnOnce() -> T + std::panic::UnwindSafe>(f: F) -> Option<T> {
 
 fn main() {
     let args: Vec<String> = std::env::args().collect();
-    if args.len() < 4 {
+    if args.len() < 4 && !(args.len() == 3 && args[1] == "load") {
         eprintln!("usage: harness <property> <seed> <count> [tier]");
         std::process::exit(2);
     }
     let prop = args[1].as_str();
+    if prop == "load" {
+        // child mode (cbin::load_bounded): Ontology::from_bytes on the bytes given in hex, outcome printed as one line
+        std::panic::set_hook(Box::new(|_| {}));
+        cbin::load_child(&args[2]);
+        return;
+    }
     let seed: u64 = args[2].parse().expect("seed");
     let count: usize = args[3].parse().expect("count");
     let tier = args.get(4).map(String::as_str).unwrap_or("quick");
